@@ -176,7 +176,11 @@ def cell_area_signs(ctx):
                        "notches, the index wrap-around sites of a hole - the correction has the wrong sign and the cell area is too large",
            witness={"input": "L-shaped film: the cell at the 270-degree corner"})
     fh = repo.func(UTIL, "get_convex_polygon_area")
-    src = norm(fh.node)
-    ok = "ConvexHull(" in src and "hull.volume" in src
+    # the returned area (first element of a returned pair) is `<h>.volume` with <h> = ConvexHull(coords), whatever <h> is called
+    from ..dataflow import expanded_text
+    areas_ret = [expanded_text(fh.node, r.value.elts[0]) for r in own_nodes(fh.node)
+                 if isinstance(r, ast.Return) and isinstance(r.value, ast.Tuple) and r.value.elts]
+    ok = any(t.endswith(".volume") and t.startswith("ConvexHull(") for t in areas_ret) and \
+        all(t in ("0", "0.0") or (t.endswith(".volume") and t.startswith("ConvexHull(")) for t in areas_ret)
     ctx.ob("R07.4", "get_convex_polygon_area returns the (unsigned) convex-hull area", ok, where=fh.fq, construct="get_convex_polygon_area",
            message="get_convex_polygon_area no longer returns hull.volume", consequence="cell areas depend on vertex order")
